@@ -328,6 +328,22 @@ fn live_histories(rep: &mut Report, seed: u64, n: u64, threads: usize) {
     }
 }
 
+/// clone() / clone_from() of a Buffered signal mid-stream
+fn clone_conformance(rep: &mut Report, seed: u64) {
+    let mut rng = Rng::derive(seed, &[143]);
+    let mut n = 0;
+    for cap in [1usize, 3, 4] {
+        let mk = |v: u64| USource::generated(src_frame, 23, Probe::new()).buffered(Bounded::from_raw_parts((v as usize + 1) % cap, 0, vec![-9999.0f64; cap]));
+        let step = |b: &mut dasp_signal::Buffered<USource<f64>, Vec<f64>>, i: u64| {
+            let x = if i % 5 == 4 { b.next_frames().take(2).map(|f| f.to_bits()).fold(0u64, |a, f| a.rotate_left(7) ^ f) } else { b.next().to_bits() };
+            (x, b.is_exhausted())
+        };
+        n += checks::cloneconf::check_clone_state("buffered", &format!("clone=1;cap={}", cap), mk, step, rep, &mut rng, 18, 20, 14);
+    }
+    rep.eval(n);
+    rep.hit_n("clone_conformance_scripts", n);
+}
+
 fn classify(got: f64, want: f64) -> &'static str {
     if got == -9999.0 {
         "dead_slot_exposed"
@@ -451,6 +467,8 @@ fn main() {
         rep.merge(r);
     }
     if cli.stage == "main" || cli.stage == "release" {
+        rep.oblige("clone_conformance_scripts", 1);
+        clone_conformance(&mut rep, cli.seed);
         rep.oblige("source_fed_again_after_buffered_ran_dry", 1);
         live_histories(&mut rep, cli.seed, cli.t(3_000, 300_000), cli.threads);
         rep.oblige("iterator_conformance_scripts", 1);
